@@ -943,6 +943,10 @@ impl OcflRepo {
             }
         }
 
+        // A path that cannot be restored does not keep the others from being restored, and the
+        // staged inventory is written in any case because staged files may have been deleted
+        let mut failure = None;
+
         // Resetting deleted or modified files is the same
         for path in previous_paths {
             if self.is_closed() {
@@ -950,6 +954,11 @@ impl OcflRepo {
             }
 
             if let Some(previous_num) = previous_num {
+                if let Err(e) = inventory.head_version().validate_non_conflicting(&path) {
+                    failure.get_or_insert(e);
+                    continue;
+                }
+
                 // In the case of a modification we need to delete the new file
                 if let Some(content_path) = inventory.remove_logical_path_from_head(&path) {
                     staging.rm_staged_files(&inventory, &[&content_path])?;
@@ -959,7 +968,12 @@ impl OcflRepo {
         }
 
         inventory.head_version_mut().created = Local::now();
-        staging.stage_inventory(&inventory, false, false)
+        staging.stage_inventory(&inventory, false, false)?;
+
+        match failure {
+            Some(e) => Err(e),
+            None => Ok(()),
+        }
     }
 
     /// Commits all of an object's staged changes. If `user_address` is provided, then `user_name`
